@@ -108,8 +108,8 @@ Theorem C03_repeated_terms_add :
 Proof. exact (conj diag_value_app cexpect_app). Qed.
 Print Assumptions C03_repeated_terms_add.
 
+(* Z0 + 1/2 Z0 + 2 I + I + 3/2 Z1 - 3/2 Z1 on the outcome 11: -3/2 + 3 = 3/2; the first four terms in the state |01>. *)
 Example C03_repeated_terms_example :
-  (diag_value [(1, [(0, PZ)]); (1 # 2, [(0, PZ)]); (2, []); (1, []); (3 # 2, [(1, PZ)]); (-3 # 2, [(1, PZ)])] [true; true] == 3 # 2)%Q
-  /\ (cexpect [(1, [(0, PZ)]); (1 # 2, [(0, PZ)]); (2, []); (1, [])] [1%N] == 3 # 2)%Q.
+  (diag_value rep_obs2 [true; true] == 3 # 2)%Q /\ (cexpect rep_obs1 [1%N] == 3 # 2)%Q.
 Proof. exact repeated_terms_example. Qed.
 Print Assumptions C03_repeated_terms_example.
